@@ -313,7 +313,24 @@ class M(icontract.DBC):
     def m(self): ...
 class N(M):
     def m(self): return 1
-EXPECTED = [A, B, C, D, E, F, G, H, I, J, K, L, M, N]
+# a meta-class deriving from DBCMeta with an __init__ of its own which does not chain up; classes made by calling __new__ of the
+# meta-class directly
+class QuietMeta(icontract.DBCMeta):
+    def __init__(cls, name, bases, namespace, **kwargs):
+        cls.made_by = "QuietMeta"
+class O(metaclass=QuietMeta):
+    pass
+class P(O):
+    pass
+Q = icontract.DBCMeta.__new__(icontract.DBCMeta, "Q", (A,), {})
+class ChainingMeta(icontract.DBCMeta):
+    def __new__(mcs, name, bases, namespace, **kwargs):
+        return super().__new__(mcs, name, bases, namespace, **kwargs)
+    def __init__(cls, name, bases, namespace, **kwargs):
+        super().__init__(name, bases, namespace, **kwargs)
+class R(metaclass=ChainingMeta):
+    pass
+EXPECTED = [A, B, C, D, E, F, G, H, I, J, K, L, M, N, O, P, Q, R]
 '''
 
 
@@ -370,7 +387,7 @@ def run(tier, t0):
              "<=2 falsy): the verdict obtained by evaluating find_checker(...).__preconditions__ (DNF), snapshots, "
              "__postconditions__ and the class __invariants__ by hand equals the verdict of the real call; for def-style "
              "programs the lists name exactly the effective contracts of the declaration; exactly one checker per decorator "
-             "stack; plus 14 class-creation shapes announced exactly once to a patched registration hook (and present in the "
+             "stack; plus 18 class-creation shapes (statements, meta-class calls, derived meta-classes with and without an __init__ of their own, a direct __new__ of the meta-class) announced exactly once to a patched registration hook (and present in the "
              "default store, DBC itself never); non-trivial = programs with at least one condition",
         assumptions=["the hand evaluation follows tests/test_for_integrators.py: select kwargs by the condition signature, stop at "
                      "the first falsy condition of a group / the first satisfied group"],
